@@ -80,6 +80,7 @@ type HSpec struct {
 	Panic       string // "before" | "after" : panic before / after writing
 	Yields      int    // extra scheduling points before writing
 	YieldsAfter int
+	PanicVal    string // kind of value the handler panics with: "" = string | error | int | struct | stringer | nilmap (a runtime error)
 	Ctl         string // attach the scenario's shared control object of this kind to the final response (bind, search)
 }
 
@@ -238,6 +239,19 @@ func (w *World) handler(route string) gldap.HandlerFunc {
 		}
 		if sp.Panic == "before" {
 			vrt.Atomic(func() { w.Notes["panicked"]++ })
+			switch sp.PanicVal {
+			case "error":
+				panic(fmt.Errorf("harness: handler panic (msg %d)", id))
+			case "int":
+				panic(42)
+			case "struct":
+				panic(struct{ A, B int }{1, 2})
+			case "stringer":
+				panic(net.IPv4(10, 0, 0, 1))
+			case "nilmap":
+				var m map[string]int
+				m["x"] = 1
+			}
 			panic(fmt.Sprintf("harness: handler panic (msg %d)", id))
 		}
 		seq := 0
@@ -407,9 +421,18 @@ func (w *World) StartServer(o SrvOpts) {
 				w.Dispatch = append(w.Dispatch, DispatchRec{Conn: r.ConnectionID(), Req: r.ID, MsgID: id, Route: "unbind"})
 			})
 			vrt.Logf("h-unbind conn=%d req=%d", r.ConnectionID(), r.ID)
+			vrt.Atomic(func() { w.Notes["unbind-started"]++ })
 			if w.spec(id).Panic == "before" {
 				vrt.Atomic(func() { w.Notes["panicked"]++ })
 				panic("harness: unbind handler panic")
+			}
+			if n := w.spec(id).Yields + w.spec(id).YieldsAfter; n > 0 {
+				// a slow unbind handler (session clean-up): it is a handler of the connection like any other
+				conn, req := r.ConnectionID(), r.ID
+				defer func() { vrt.Logf("h-exit conn=%d req=%d", conn, req) }()
+				for i := 0; i < n; i++ {
+					vrt.Yield()
+				}
 			}
 		}))
 	}
